@@ -79,6 +79,22 @@ func plainGlue(op, id, T, form string) (src string, ok bool) {
 		ret = ""
 	}
 	switch form {
+	case "conv":
+		// the derive call sits inside a conversion to a predeclared type
+		switch res {
+		case "uint64":
+			return fmt.Sprintf("func %s(%s) int { return int(%s %% 7) }\n", name, params, call), true
+		case "int":
+			return fmt.Sprintf("func %s(%s) float64 { return float64(%s) }\n", name, params, call), true
+		case "string":
+			return fmt.Sprintf("func %s(%s) []byte { return []byte(%s) }\n", name, params, call), true
+		case "bool", "":
+			return fmt.Sprintf("func %s(%s) %s { %s%s }\n", name, params, res, ret, call), true
+		}
+		if strings.HasPrefix(res, "[]") || strings.HasPrefix(res, "map[") {
+			return fmt.Sprintf("func %s(%s) float64 { return float64(len(%s)) }\n", name, params, call), true
+		}
+		return fmt.Sprintf("func %s(%s) %s { %s%s }\n", name, params, res, ret, call), true
 	case "body", "test":
 		return fmt.Sprintf("func %s(%s) %s { %s%s }\n", name, params, res, ret, call), true
 	case "closure":
